@@ -1357,8 +1357,9 @@ def dec(term, ct):
     return term
 
 
-def translate_all(repo, only=None):
-    """returns (funcs_v, check_v, report)"""
+def translate_all(repo, only=None, force_refuse=None):
+    """returns (funcs_v, check_v, report); force_refuse: function -> reason (used when Coq rejected its text)"""
+    force_refuse = force_refuse or {}
     global TYPEDEF_RESOLVER
     TYPEDEF_RESOLVER = make_typedef_resolver(repo)
     specs = [s for s in FUNCS if only is None or s["c"] in only]
@@ -1382,6 +1383,8 @@ def translate_all(repo, only=None):
             if isinstance(d, Refuse):
                 raise d
             src = source_of(d, repo)
+            if n in force_refuse:
+                raise Refuse(force_refuse[n])
             ft = FnTrans(s, d, done)
             r = ft.run()
         except Refuse as why:
@@ -1424,6 +1427,11 @@ def translate_all(repo, only=None):
         disp.append("  if fn =? %d then match args with [%s] => %s | _ => None end else" % (s["id"], "; ".join(avars), res))
         names.append("(%d, [%s])" % (s["id"], "; ".join(str(b) for b in n.encode())))
     funcs_v = HEADER % os.path.join(repo, "src/static.c") + "\n" + "\n".join(out)
+    # first line of every function's text in the file (to attribute a Coq error to a function)
+    line, spans = (HEADER % os.path.join(repo, "src/static.c")).count("\n") + 2, []
+    for s_, o_ in zip(specs, out):
+        spans.append((line, s_["c"])); line += o_.count("\n") + 1
+    report["line_of"] = spans
     funcs_v += "\n(* function names (ASCII codes) of the translated functions, by dispatcher number *)\n"
     funcs_v += "Definition c_names : list (N * list N) :=\n  [%s].\n" % ";\n   ".join(names)
     funcs_v += "\n(* uniform entry point for the replay driver ocaml/mode_gen.ml: arguments and results as unsigned 64-bit numbers\n   (bool: 0/1, signed: two's complement); second component: c_<fn>_ok *)\n"
@@ -1454,6 +1462,23 @@ def generate():
         funcs_v = HEADER % vlib.REPO + "".join("Definition c_%s : c2g_refused := C2G_refused.\nDefinition c_%s_ok : c2g_refused := C2G_refused.\n" % (s["c"], s["c"]) for s in FUNCS)
         funcs_v += "Definition c_names : list (N * list N) := [].\nDefinition c_dispatch (fn : N) (args : list N) : option (list N * bool) := None.\n"
         check_v = "(* GENERATED -- translator crashed *)\n"
+    # safety net: the generated text must be accepted by Coq, otherwise Extract/All.v (all properties) would not build.
+    # Only when the text changed; a function whose text Coq rejects is refused and the file regenerated.
+    try:
+        cur = open(os.path.join(vlib.COQ, "Gen", "Funcs.v")).read()
+    except OSError:
+        cur = None
+    if cur != funcs_v and report.get("translated"):
+        try:
+            forced = {}
+            for _ in range(6):
+                bad = coq_rejects(vlib.COQ, funcs_v, report)
+                if bad is None:
+                    break
+                forced[bad[0]] = "generated Gallina rejected by Coq (translator defect): " + bad[1]
+                funcs_v, check_v, report = translate_all(vlib.REPO, force_refuse=forced)
+        except Exception:
+            pass
     changed = []
     for name, content in (("Funcs.v", funcs_v), ("FuncsCheck.v", check_v)):
         if vlib.write_if_changed(os.path.join(vlib.COQ, "Gen", name), content):
@@ -1461,6 +1486,37 @@ def generate():
     with open(os.path.join(vlib.BUILD, "c2g_report.json"), "w") as f:
         json.dump(report, f, indent=1, sort_keys=True)
     return True, "", changed
+
+
+def coq_rejects(coqdir, funcs_v, report):
+    """test-compile a candidate Gen/Funcs.v in a scratch directory against the compiled tree.  Returns
+    (function, message) when Coq reports an error located inside the candidate, None when it is accepted or when
+    the test cannot be made (dependencies not compiled / out of date: the normal build will tell)."""
+    import tempfile, shutil
+    tmp = tempfile.mkdtemp(prefix="c2g")
+    try:
+        os.makedirs(os.path.join(tmp, "Gen"))
+        f = os.path.join(tmp, "Gen", "Funcs.v")
+        open(f, "w").write(funcs_v)
+        p = subprocess.run(["timeout", "120", "coqc", "-Q", coqdir, "MiV", "-Q", tmp, "MiVc2g", f],
+                           stdout=subprocess.PIPE, stderr=subprocess.STDOUT, text=True, errors="replace", cwd=tmp)
+        if p.returncode == 0:
+            return None
+        m = re.search(r'File "[^"]*Funcs\.v", line (\d+), characters [^\n]*\nError:\s*((?:.|\n){0,300})', p.stdout)
+        if not m or "inconsistent assumptions" in p.stdout or "Cannot find a physical path" in p.stdout or "Unable to locate library" in p.stdout:
+            return None
+        line = int(m.group(1))
+        if line <= 12:
+            return None            # the Require line: a dependency problem, not the generated text
+        fn = None
+        for l0, n in report.get("line_of", []):
+            if l0 <= line:
+                fn = n
+        if fn is None or report["functions"].get(fn, {}).get("status") != "ok":
+            return None
+        return fn, " ".join(m.group(2).split())[:200]
+    finally:
+        shutil.rmtree(tmp, ignore_errors=True)
 
 
 def load_report():
